@@ -164,7 +164,7 @@ def r5_3(ctx):
                 for st in b["stmts"]:
                     if st["k"] == "assign" and st["rv"]["k"] == "ref":
                         fs = [p_["n"] for p_ in st["rv"]["place"]["p"] if isinstance(p_, dict) and "n" in p_]
-                        if fs and fs[-1] == field and st["rv"]["place"]["l"] == 2:
+                        if fs and fs[-1] == field and v.canon_place(st["rv"]["place"])["l"] == 2:
                             if field == "stderr":
                                 good = bi in v.reachable(e_err) and bi not in v.reachable(0, removed_edges=[(sb, e_err)])
                             else:
@@ -187,7 +187,7 @@ def r5_3(ctx):
             for st in b["stmts"]:
                 if st["k"] == "assign" and st["rv"]["k"] == "ref":
                     fs = [p["n"] for p in st["rv"]["place"]["p"] if isinstance(p, dict) and "n" in p]
-                    if fs and fs[-1] == field and st["rv"]["place"]["l"] == 2:
+                    if fs and fs[-1] == field and v.canon_place(st["rv"]["place"])["l"] == 2:
                         out.append(bi)
         return out
     for field, edge, other_edge in (("stderr", stderr_edge, stdout_edge), ("stdout", stdout_edge, stderr_edge)):
